@@ -1,6 +1,7 @@
 """C01 driver: build a segment through the real graph API, compile it with the real compiler and execute the
 resulting symbol table with an independent dependency-ordered interpreter (not a forml runner)."""
 import json
+import os
 import uuid
 
 import forml
@@ -10,11 +11,15 @@ from harness import flowsym
 
 
 class Assets:
-    """Stub of asset.State: records loads, dumps and the commit."""
+    """Stub of asset.State: records loads, dumps and the commit.
 
-    def __init__(self, gids, previous):
+    With `root` (a directory) the dumped states and the commit are kept in files, as the real registry does, so that the
+    stub also works when dumper, loader and committer run in different processes (dask `processes` scheduler)."""
+
+    def __init__(self, gids, previous, root=None):
         self.gids, self.previous = list(gids), dict(previous)
-        self.dumped, self.committed, self.loads = {}, None, []
+        self.dumped, self._committed, self.loads = {}, None, []
+        self.root = root
 
     def __contains__(self, gid):
         return gid in self.gids
@@ -31,12 +36,29 @@ class Assets:
 
     def dump(self, state):
         sid = uuid.uuid4()
-        self.dumped[sid] = flowsym.freeze(json.loads(state.decode()))
+        if self.root is not None:
+            with open(os.path.join(self.root, f'state-{sid}.json'), 'w', encoding='utf-8') as out:
+                out.write(state.decode())
+        else:
+            self.dumped[sid] = flowsym.freeze(json.loads(state.decode()))
         return sid
 
     def commit(self, states):
-        assert self.committed is None, 'committed twice'
-        self.committed = [self.dumped[s] for s in states]
+        if self.root is not None:
+            target = os.path.join(self.root, 'committed.json')
+            assert not os.path.exists(target), 'committed twice'
+            with open(target, 'w', encoding='utf-8') as out:
+                json.dump([json.load(open(os.path.join(self.root, f'state-{s}.json'), encoding='utf-8')) for s in states], out)
+            return
+        assert self._committed is None, 'committed twice'
+        self._committed = [self.dumped[s] for s in states]
+
+    @property
+    def committed(self):
+        if self.root is not None:
+            target = os.path.join(self.root, 'committed.json')
+            return flowsym.freeze(json.load(open(target, encoding='utf-8'))) if os.path.exists(target) else None
+        return self._committed
 
 
 def build(desc):
